@@ -440,6 +440,34 @@ def facet_table(ck, F, X):
         for (xsd, site) in rows:
             if f in FACETS and FACETS[f] != xsd:
                 pass  # already reported above
+    # R4 (gate): the emission of a facet may only be conditioned on that facet itself (and on facet-independent structure). A
+    # condition over *other* facets that does not mention this one silently drops the facet for some schemas.
+    CE = og.CallExpander(F)
+    facet_names = set(FACETS)
+    try:
+        stream = [e for e in inline(X, ROOT) if e.kind == "emit" and e.fn == RESTR_WRITER]
+    except og.Unrecognised:
+        stream = []
+    gate_seen = set()
+    for ev in stream:
+        m = re.match(r"^\s*(\w+): Some\((\{\}|vec!\[)", ev.skeleton())
+        if not m or m.group(1) not in facet_names:
+            continue
+        hf = m.group(1)
+        for c in ev.ctx:
+            if c[0] != "alt":
+                continue
+            cond = CE.expand(c[1])
+            mentioned = _facet_fields(cond, facet_names)
+            if mentioned and hf not in mentioned:
+                if (hf, og.nf_str(cond)[:60]) in gate_seen:
+                    continue
+                gate_seen.add((hf, og.nf_str(cond)[:60]))
+                ck.violation("R4", f"{hf}:gated-by-other-facets", ev.site,
+                             f"the emission of `{hf}` is conditioned on {sorted(mentioned)} ({og.nf_str(cond)[:110]}…) but not on `{hf}` itself: a type whose "
+                             f"only facet is `{FACETS[hf]}` gets no restriction constructor and is never checked")
+        if hf not in {g[0] for g in gate_seen}:
+            ck.ok("R4", f"{hf}:gate", ev.site, f"`{hf}` is emitted whenever the model has it (no condition over other facets)")
     # R6: numeric facet holes must be typed numerically
     for hf, rows in write_tab.items():
         if hf == "enumeration":
@@ -453,6 +481,17 @@ def facet_table(ck, F, X):
                     ck.violation("R6", f"{hf}:untyped", ev.site,
                                  f"`{hf}: Some({{..}})` is filled with a value of type `{ty}` (raw schema text): a non-integer facet value "
                                  f"yields code that does not compile or is not a number")
+
+
+def _facet_fields(nf, names, out=None):
+    out = set() if out is None else out
+    if isinstance(nf, tuple):
+        if nf and nf[0] == "field" and nf[2] in names:
+            out.add(nf[2])
+        for x in nf:
+            if isinstance(x, tuple):
+                _facet_fields(x, names, out)
+    return out
 
 
 def _payload_of_self_field(nf):
